@@ -4,9 +4,10 @@ package libp2pwebtransport
 
 // C18: WebTransport serves a valid, advertised certificate at all times; dialers pin it.
 // Parts (one vrep record each): "verifier" (verifyRawCerts over a product of certificates, hash lists, instants
-// and chains), "dial" (real transport over loopback QUIC: the early-data confirmation), "manager" (the
-// certificate manager over virtual time, engine E1). The two bounded-cost parts run first so that the
-// manager search owns whatever is left of the time budget.
+// and chains), "dial" (real transport over loopback QUIC: the early-data confirmation), "listener" (a real
+// listener kept open across certificate rollovers on a mock clock: what is served and confirmed on the wire),
+// "manager" (the certificate manager over virtual time, engine E1). The bounded-cost parts run first so that
+// the manager search owns whatever is left of the time budget.
 
 import (
 	"testing"
@@ -19,11 +20,15 @@ func TestVerifC18(t *testing.T) {
 	t1 := time.Now()
 	rd := c18Dial(t)
 	t2 := time.Now()
-	// flushed after the manager part (record order manager, dial, verifier); wall_s of these two records therefore
+	rl := c18Listener(t)
+	t3 := time.Now()
+	// flushed after the manager part (record order manager, listener, dial, verifier); wall_s of these records therefore
 	// spans the whole run, their own duration is noted
 	rv.Note("this part alone took %.2fs", t1.Sub(t0).Seconds())
 	rd.Note("this part alone took %.2fs", t2.Sub(t1).Seconds())
+	rl.Note("this part alone took %.2fs", t3.Sub(t2).Seconds())
 	defer rv.Flush()
 	defer rd.Flush()
+	defer rl.Flush()
 	c18Manager(t)
 }
